@@ -556,9 +556,13 @@ func flattener(flattenList cty.Value) ([]cty.Value, []cty.ValueMarks, bool) {
 		_, val := it.Element()
 
 		// Any dynamic types could result in more collections that need to be
-		// flattened, so the type cannot be known.
-		if val == cty.DynamicVal {
+		// flattened, so the type cannot be known. A mark on the value must not
+		// hide it from this test.
+		if unmarkedVal, valMarks := val.Unmark(); unmarkedVal == cty.DynamicVal {
 			isKnown = false
+			if len(valMarks) > 0 {
+				markses = append(markses, valMarks)
+			}
 		}
 
 		if !val.IsNull() && (val.Type().IsListType() || val.Type().IsSetType() || val.Type().IsTupleType()) {
